@@ -9,11 +9,11 @@ from . import gen
 
 def _knobs(rng, *, conc=True):
     return {
-        "mode": rng.choice(["threads", "procs", "forked"]),
+        "mode": rng.choice(["threads", "threads", "procs", "forked"]),
         "line_preempt": conc and rng.random() < 0.25,
         "pool": rng.choice(["serial", "sim", "sim"]),
         "pool_workers": rng.choice([1, 2, 3, 16]),
-        "pool_points": rng.random() < 0.7,
+        "pool_points": rng.random() < 0.85,
         "stay": rng.choice([0.0, 0.3, 0.5, 0.7, 0.9]),
         "state_digest": rng.random() < 0.1,
         "clock_jump": rng.choice([0.0, 0.0, 0.2]),
